@@ -107,9 +107,12 @@ class World(BaseWorld):
     def gen_src(self, rng):
         """An operand for extend / + / += / constructor."""
         kind = choose_weighted(rng, [("ar", 4), ("list", 2), ("gen", 1), ("self", 1.5), ("empty_ar", 1.5), ("empty_list", 1),
-                                     ("tuple", 0.7), ("iter", 0.7), ("reversed", 0.4), ("map", 0.4)])
+                                     ("tuple", 0.7), ("iter", 0.7), ("reversed", 0.4), ("map", 0.4), ("gen_raises", 0.6)])
         if kind in ("tuple", "iter", "reversed", "map"):
             return {"k": kind, "items": [enc_rec(r) for r in self.gen_recs(rng)]}
+        if kind == "gen_raises":
+            recs = self.gen_recs(rng, 1, 4)
+            return {"k": "gen_raises", "items": [enc_rec(r) for r in recs], "fail_after": rng.randint(0, len(recs))}
         if kind == "ar" and self.live:
             return {"k": "ar", "slot": rng.randrange(len(self.live))}
         if kind == "self":
@@ -423,7 +426,38 @@ class World(BaseWorld):
         if ok and _rec(ires) != lres:
             raise Violation("wrong_return", "pop(%d): got %r want %r" % (i, _rec(ires), lres))
 
+    def failing_source(self, op, a, impl, sh, inplace_add):
+        """Injected fault: the iterable handed to extend / += raises after yielding a prefix.  Afterwards the collection is
+        either unchanged or extended by exactly that prefix (a list does the latter), and the `best` invariants hold."""
+        src = op["src"]
+        recs = [dec_rec(r) for r in src["items"]]
+        k = min(src.get("fail_after", 0), len(recs))
+
+        def source():
+            for r in recs[:k]:
+                yield self.mk(r)
+            raise RuntimeError("injected: iterable fails")
+        self.fault("iterable_raises_mid_operation")
+        try:
+            if inplace_add:
+                x = impl
+                x += source()
+            else:
+                impl.extend(source())
+        except RuntimeError:
+            pass
+        except Exception as e:
+            raise Violation("raises_where_list_accepts", "extend with a failing iterable raised %s instead of the iterable's own error" % type(e).__name__)
+        got = [_rec(r) for r in list.__iter__(impl)]
+        if got == sh + recs[:k]:
+            sh.extend(recs[:k])
+        elif got != sh:
+            raise Violation("sequence_mismatch", "after a failing iterable: got %r, expected %r or that plus the yielded prefix %r" % (got, sh, recs[:k]))
+        return "gen_raises"
+
     def op_extend(self, op, a, impl, sh):
+        if op["src"]["k"] == "gen_raises":
+            return self.failing_source(op, a, impl, sh, False)
         operand, recs, tag = self.resolve_src(op["src"], a)
         if not recs:
             self.probe("empty_argument")
@@ -432,6 +466,8 @@ class World(BaseWorld):
         return tag
 
     def op_iadd(self, op, a, impl, sh):
+        if op["src"]["k"] == "gen_raises":
+            return self.failing_source(op, a, impl, sh, True)
         operand, recs, tag = self.resolve_src(op["src"], a)
         if not recs:
             self.probe("empty_argument")
@@ -451,7 +487,7 @@ class World(BaseWorld):
 
     def op_add(self, op, a, impl, sh):
         src = op["src"]
-        if src["k"] in ("gen", "tuple", "iter", "reversed", "map"):
+        if src["k"] in ("gen", "tuple", "iter", "reversed", "map", "gen_raises"):
             src = dict(src, k="list")      # list + non-list is a TypeError for lists
         operand, recs, tag = self.resolve_src(src, a)
         if not recs:
